@@ -53,6 +53,7 @@ type World struct {
 	QueryNamed *types.Named
 
 	census *Census
+	argSite *ssa.BasicBlock // scratch: call site whose arguments are being traced (B-ARGS)
 }
 
 func loadWorld(repo string, tags string) (*World, error) {
